@@ -66,7 +66,9 @@ def run(ctx: Ctx, mb) -> bool:
             g = dict(init)
             f = Tok("f", __globals__=g, __ident__=1)
             ev = PyEval(ctx.idx, mb.module.name)
-            env = {fparam: f, **_module_state(ctx, mb), "id": lambda node, e, en: id(e.ev(node.args[0], en))}
+            mstate = _module_state(ctx, mb)
+            ev.__dict__["_modconst"] = mstate  # helpers called from mock_builtins see the same module-level objects
+            env = {fparam: f, **mstate, "id": lambda node, e, en: id(e.ev(node.args[0], en))}
             try:
                 r = ev.run(pre, env)
                 if r[0] != "fall":
@@ -104,6 +106,7 @@ def run(ctx: Ctx, mb) -> bool:
                 g.update(binds)
             want = dict(g)
             ev = PyEval(ctx.idx, mb.module.name)
+            ev.__dict__["_modconst"] = shared
             env = {fparam: f, **shared, "id": lambda node, e, en: id(e.ev(node.args[0], en))}
             try:
                 r = ev.run(pre, env)
